@@ -9,6 +9,14 @@ _Bool __CPROVER_uninterpreted_contains(int, int);
 _Bool vx_nodeExists(int v) { return __CPROVER_uninterpreted_nodeExists(v); }
 _Bool vx_contains(int a, int b) { return __CPROVER_uninterpreted_contains(a, b); }
 
+/* ghost: the per-class list cache (equivalencePartition) reflects the union-find.  Stale after every insertion, so a look-up may
+   find it in either state; genAllDisjointSetLists() makes it fresh; it may be read, or iterated over, only when fresh. */
+_Bool g_fresh;
+unsigned long __CPROVER_uninterpreted_findNode(int);
+unsigned long vx_findNode(int v) { return __CPROVER_uninterpreted_findNode(v); }
+void vx_regen(void) { g_fresh = 1; }
+_Bool vx_cache_read(void) { __CPROVER_assert(g_fresh, "cache: equivalencePartition is read only after genAllDisjointSetLists() (a stale cache yields the class as it was before the last insertions)"); return g_fresh; }
+void vx_cache_iter(void) { __CPROVER_assert(g_fresh, "cache: an iterator over the class lists is created only from a regenerated cache"); }
 _Bool in_b0, in_b1; int in_v0, in_v1;    /* the look-up: which columns are bound, and to which values */
 struct vx_res g_out;
 
@@ -26,25 +34,25 @@ void h_lower_bound(int e0, int e1, void *out)
 __CPROVER_requires(out == &g_out && !(in_b1 && !in_b0))
 __CPROVER_requires(e0 == (in_b0 ? in_v0 : MIN_RAM_SIGNED) && e1 == (in_b1 ? in_v1 : MIN_RAM_SIGNED))
 __CPROVER_ensures(expected(g_out, in_b0, in_b1, in_v0, in_v1))
-__CPROVER_assigns(g_out);
+__CPROVER_assigns(g_out, g_fresh);
 
 /* compiled code: the number of bound columns is the template argument; no sentinel */
 void h_getBoundaries_0(int e0, int e1, void *out)
-__CPROVER_requires(out == &g_out) __CPROVER_ensures(expected(g_out, 0, 0, e0, e1)) __CPROVER_assigns(g_out);
+__CPROVER_requires(out == &g_out) __CPROVER_ensures(expected(g_out, 0, 0, e0, e1)) __CPROVER_assigns(g_out, g_fresh);
 void h_getBoundaries_1(int e0, int e1, void *out)
-__CPROVER_requires(out == &g_out) __CPROVER_ensures(expected(g_out, 1, 0, e0, e1)) __CPROVER_assigns(g_out);
+__CPROVER_requires(out == &g_out) __CPROVER_ensures(expected(g_out, 1, 0, e0, e1)) __CPROVER_assigns(g_out, g_fresh);
 void h_getBoundaries_2(int e0, int e1, void *out)
-__CPROVER_requires(out == &g_out) __CPROVER_ensures(expected(g_out, 1, 1, e0, e1)) __CPROVER_assigns(g_out);
+__CPROVER_requires(out == &g_out) __CPROVER_ensures(expected(g_out, 1, 1, e0, e1)) __CPROVER_assigns(g_out, g_fresh);
 
 /* compiled look-up wrappers (EqRel.h).  ekind carries 16 when the iterator swaps the columns of every tuple it yields */
 static _Bool expected_w(struct vx_res r, _Bool swapped, _Bool b0, _Bool b1, int v0, int v1) {
     struct vx_res q = r; if ((r.ekind >= 16) != swapped) return 0; q.ekind = r.ekind & 15;
     return expected(q, b0, b1, v0, v1);
 }
-void h_range_10(int e0, int e1, void *out) __CPROVER_requires(out == &g_out) __CPROVER_ensures(expected_w(g_out, 0, 1, 0, e0, e1)) __CPROVER_assigns(g_out);
+void h_range_10(int e0, int e1, void *out) __CPROVER_requires(out == &g_out) __CPROVER_ensures(expected_w(g_out, 0, 1, 0, e0, e1)) __CPROVER_assigns(g_out, g_fresh);
 /* second column bound to e1: pairs (e1,_) of the symmetric closure, yielded with swapped columns = pairs (_,e1) */
-void h_range_01(int e0, int e1, void *out) __CPROVER_requires(out == &g_out) __CPROVER_ensures(expected_w(g_out, 1, 1, 0, e1, e0)) __CPROVER_assigns(g_out);
-void h_range_11(int e0, int e1, void *out) __CPROVER_requires(out == &g_out) __CPROVER_ensures(expected_w(g_out, 0, 1, 1, e0, e1)) __CPROVER_assigns(g_out);
+void h_range_01(int e0, int e1, void *out) __CPROVER_requires(out == &g_out) __CPROVER_ensures(expected_w(g_out, 1, 1, 0, e1, e0)) __CPROVER_assigns(g_out, g_fresh);
+void h_range_11(int e0, int e1, void *out) __CPROVER_requires(out == &g_out) __CPROVER_ensures(expected_w(g_out, 0, 1, 1, e0, e1)) __CPROVER_assigns(g_out, g_fresh);
 
 #ifdef VX_CANARY
 #define CANARY __CPROVER_assert(0, "canary: reachable after the call under contract")
@@ -52,7 +60,9 @@ void h_range_11(int e0, int e1, void *out) __CPROVER_requires(out == &g_out) __C
 #define CANARY
 #endif
 int nondet_int(void); _Bool nondet_bool(void);
+#define STALE_OR_FRESH g_fresh = nondet_bool()
 void harness_lower_bound(void) {
+    STALE_OR_FRESH;
     in_b0 = nondet_bool(); in_b1 = nondet_bool(); in_v0 = nondet_int(); in_v1 = nondet_int();
     __CPROVER_assume(!(in_b1 && !in_b0));
 #ifdef VX_KF_C08_MINBOUND   /* known finding: a column bound to MIN_RAM_SIGNED (see known_findings.txt) */
@@ -60,9 +70,9 @@ void harness_lower_bound(void) {
 #endif
     h_lower_bound(in_b0 ? in_v0 : MIN_RAM_SIGNED, in_b1 ? in_v1 : MIN_RAM_SIGNED, &g_out); CANARY;
 }
-void harness_gb0(void) { in_v0 = nondet_int(); in_v1 = nondet_int(); h_getBoundaries_0(in_v0, in_v1, &g_out); CANARY; }
-void harness_gb1(void) { in_v0 = nondet_int(); in_v1 = nondet_int(); h_getBoundaries_1(in_v0, in_v1, &g_out); CANARY; }
-void harness_gb2(void) { in_v0 = nondet_int(); in_v1 = nondet_int(); h_getBoundaries_2(in_v0, in_v1, &g_out); CANARY; }
-void harness_range_10(void) { in_v0 = nondet_int(); in_v1 = nondet_int(); h_range_10(in_v0, in_v1, &g_out); CANARY; }
-void harness_range_01(void) { in_v0 = nondet_int(); in_v1 = nondet_int(); h_range_01(in_v0, in_v1, &g_out); CANARY; }
-void harness_range_11(void) { in_v0 = nondet_int(); in_v1 = nondet_int(); h_range_11(in_v0, in_v1, &g_out); CANARY; }
+void harness_gb0(void) { STALE_OR_FRESH; in_v0 = nondet_int(); in_v1 = nondet_int(); h_getBoundaries_0(in_v0, in_v1, &g_out); CANARY; }
+void harness_gb1(void) { STALE_OR_FRESH; in_v0 = nondet_int(); in_v1 = nondet_int(); h_getBoundaries_1(in_v0, in_v1, &g_out); CANARY; }
+void harness_gb2(void) { STALE_OR_FRESH; in_v0 = nondet_int(); in_v1 = nondet_int(); h_getBoundaries_2(in_v0, in_v1, &g_out); CANARY; }
+void harness_range_10(void) { STALE_OR_FRESH; in_v0 = nondet_int(); in_v1 = nondet_int(); h_range_10(in_v0, in_v1, &g_out); CANARY; }
+void harness_range_01(void) { STALE_OR_FRESH; in_v0 = nondet_int(); in_v1 = nondet_int(); h_range_01(in_v0, in_v1, &g_out); CANARY; }
+void harness_range_11(void) { STALE_OR_FRESH; in_v0 = nondet_int(); in_v1 = nondet_int(); h_range_11(in_v0, in_v1, &g_out); CANARY; }
